@@ -101,7 +101,8 @@ prop('C06', title='Receive path: exact stream framing, and no failure on any del
                 'a packet hands over nothing, shuts the face down and terminates. "Unrelated Interests/handlers unaffected" and real '
                 'cut positions on real StreamReaders are a bounded stand-in.',
      level_note='parse of shipped model classes is summarised (contracts/parse_summary.py) on top of the generic TlvModel.parse proof; '
-                '_on_data/_on_nack/_on_interest are call-site summaries here (their own checks: C03/C04/C05).',
+                '_on_data/_on_nack/_on_interest are call-site summaries inside _receive; their own contracts (raise nothing for ANY name, '
+                'also the empty one, any table content) are verified under this property as well.',
      technique=T_MIXED)
 prop('C07', title='Packet decoders accept exactly the well-formed packets', level='proof', bounded=[('bounded.c07', 'run', SH)],
      level_text='Unbounded proof, per function, that the decoders (var-number codec, outer-element check, Name.decode, UintField widths, '
